@@ -47,6 +47,7 @@ type Engine struct {
 	conCache map[*ssa.Function]*Contract
 	globalInit map[*ssa.Global]ssa.Value
 	globalInitDone bool
+	usesCtorTable bool
 }
 
 func fnName(fn *ssa.Function) string {
@@ -421,7 +422,10 @@ func (e *Engine) localMods(fn *ssa.Function) (map[string]bool, []*ssa.Function, 
 					// a call through a function value: anything may happen, unless the function's contract
 					// declares its dynamic calls to be allocating constructors (opt dyncalls-pure, an assumption
 					// about the TypeToRR table that is listed in the evidence)
-					if con := e.contractFor(fn); con != nil && con.Opts["dyncalls-pure"] != "" {
+					if _, tab := tableLookupKey(c.Value); tab {
+					// a constructor of the TypeToRR literal: `return new(T)` (obligation #table.constructors)
+					e.usesCtorTable = true
+				} else if con := e.contractFor(fn); con != nil && con.Opts["dyncalls-pure"] != "" {
 						e.assume("%s: calls through function values (record constructors of the TypeToRR table) only allocate", fnName(fn))
 					} else {
 						all = true
